@@ -965,6 +965,31 @@ def probe_mark():
         shutil.rmtree(d, ignore_errors=True)
 
 
+def probe_log_queue():
+    """log_queue_kind: the queue-like attribute of a process runner (put / get_nowait) is a Manager proxy, or a multiprocessing
+    queue object with a feeder thread."""
+    import multiprocessing.managers
+    import multiprocessing.queues
+    from labtech.runners import ForkRunnerBackend
+    from labtech.storage import NullStorage
+    r = ForkRunnerBackend().build_runner(context={}, storage=NullStorage(), max_workers=1)
+    try:
+        qs = [v for v in vars(r).values() if hasattr(v, 'put') and hasattr(v, 'get_nowait')]
+        # (the runner may hold other queues as well, e.g. for the task monitor: all of one kind, or no answer)
+        kinds = {('sync' if isinstance(v, multiprocessing.managers.BaseProxy) else
+                  'async' if isinstance(v, (multiprocessing.queues.Queue, multiprocessing.queues.SimpleQueue)) else 'other') for v in qs}
+        if kinds == {'sync'}:
+            return 'LogQueueSync'
+        if kinds == {'async'}:
+            return 'LogQueueAsync'
+        return None
+    finally:
+        try:
+            r.close()
+        except Exception:   # noqa
+            pass
+
+
 def probe_view():
     """view_mode: under the fork backend, does a worker forked after the in-memory results have been empty once still see the
     results of its dependencies?  (One worker; an independent task finishes first and its result is released at once.)"""
@@ -1025,6 +1050,7 @@ def all_probes():
     out['launch'] = _limited(probe_launch)
     out['view'] = _limited(probe_view)
     out['mark'] = _limited(probe_mark)
+    out['lq'] = _limited(probe_log_queue)
     out['scope'] = _limited(probe_scope)
     out.update(_limited(probe_storage) or {})
     r = _limited(probe_cache) or (None, None)
